@@ -311,6 +311,10 @@ def update_resource_provider(req):
         raise webob.exc.HTTPBadRequest(
             'Unable to save resource provider %(rp_uuid)s: %(error)s' %
             {'rp_uuid': uuid, 'error': exc})
+    except exception.NotFound:
+        # Deleted by another request since it was loaded above.
+        raise webob.exc.HTTPNotFound(
+            'No resource provider with uuid %s found' % uuid)
 
     response = req.response
     response.status = 200
